@@ -87,6 +87,14 @@ def dynstep(name, mode, s1, s2, s3, kmax=4, vmax=1, idxl=10, eps=1, epsrec=1, ti
                        % (s1, s2, s3, kmax, vmax, idxl))
 
 
+def dynrej(name, kind, maxbulk=2, tiers=Q, timeout=900):
+    d = dict(RKIND=kind, MAXBULK=maxbulk, VERIF_VEC_CAP=10, VERIF_VECVEC_CAP=36, VERIF_SET_CAP=8)
+    return dict(name=name, unit='dyn_reject.cpp', harness='h_dyn_reject.c', defs=d, narrow=16, timeout=timeout, tiers=tiers,
+                bounds=['every base 2..40 (buffer_level 1)', 'every bulk-load of %d pairs over keys 0..6, sorted or not' % maxbulk,
+                        'insert_or_assign of every key 0..8 with every value 250..255 into a container bulk-loaded with %d pairs' % maxbulk,
+                        'range(lo,hi) for every lo,hi in 0..9 on a container bulk-loaded with %d pairs' % maxbulk][kind])
+
+
 JOBS = {}
 JOBS['C01'] = [
     e2e('e2e_u8_n1_e1_r1', 'uint8_t', 1, 1, 1),
@@ -119,6 +127,7 @@ JOBS['C07'] = [e2e('e2e_u8_n3_e1_r1', 'uint8_t', 3, 1, 1), e2e('e2e_i8_n2_e1_r1'
 JOBS['C16'] = [e2e('frame_u8_n2_e1_r1', 'uint8_t', 2, 1, 1, extra=dict(WITH_FRAME=1)), e2e('frame_u8_n3_e1_r0', 'uint8_t', 3, 1, 0, extra=dict(WITH_FRAME=1))]
 JOBS['C20'] = [e2e('reject_u8_n%d' % n, 'uint8_t', n, 1, 1, extra=dict(ALLOW_SENTINEL=1)) for n in (1, 2)] + \
               [e2e('reject_i8_n2', 'int8_t', 2, 1, 0, extra=dict(ALLOW_SENTINEL=1))]
+JOBS['C20'] += [dynrej('dynrej_base', 0), dynrej('dynrej_bulk', 1, 3), dynrej('dynrej_tomb', 2), dynrej('dynrej_range', 3)]
 JOBS['C18'] = [cpgm('cpgm_u32_n2', 'uint32_t', 'uint32', 2), cpgm('cpgm_i32_n2', 'int32_t', 'int32', 2), cpgm('cpgm_u64_n2_null', 'uint64_t', 'uint64', 2, sentinel=True),
                cpgm('cpgm_i64_n3', 'int64_t', 'int64', 3, tiers=T, timeout=3000)]
 
